@@ -110,13 +110,13 @@ def run(ctx, col, tier):
              floor=20, exhaustive=True)
     col.rule("R-ROLE", "the quantities entering the formulas are the ones the formulas are about: "
              "centre distance, frustum height, the radius of the *other* end, exit height and exit "
-             "radius of the cone's side, the slant line handed to the intersection routine", floor=8)
+             "radius of the cone's side, the slant line handed to the intersection routine", floor=8, shape=True)
     col.rule("R-LINE", "line/sphere intersection = roots of |A + tD - C|^2 = r^2 with both points "
              "A + tD; point projection = A + (AP.n / n.n) n (formal identities over dot products)",
              floor=6)
     col.rule("R-LADDER", "operand pairs that get a closed form and their argument order: sphere/"
              "sphere, sphere/frustum in either call direction; the sphere-frustum closed form is "
-             "used only when the sphere sits on one end of the frustum", floor=6)
+             "used only when the sphere sits on one end of the frustum", floor=6, shape=True)
     col.rule("R-GEO", "every closed form is homogeneous of degree 3 in lengths", floor=4, exhaustive=True)
     col.not_decided += ["floating-point error of the formulas (cancellation near tangency, the "
                         "eps tolerance)", "the Monte-Carlo fallback for non-concentric pairs",
@@ -173,7 +173,7 @@ def forms(ctx, col):
     ):
         d = repo.get_def(qual)
         e = single_return(d)
-        col.judge(e is not None, e is not None and norm_src(e) == want, R_, qual, d.loc(), what, want,
+        col.shape(e is not None and norm_src(e) == want, R_, qual, d.loc(), what, want,
                   f"returns `{norm_src(e) if e is not None else ''}`", stmt="wire")
     # height = |c1 - c2|
     d = repo.get_def(f"{MOD}.VolFrustumCone.height")
@@ -547,11 +547,11 @@ def helpers(ctx, col):
         except NotPolynomial as ex:
             col.unresolved(R_, d.qualname, d.loc(e), what, str(ex), stmt=name)
     rets = [norm_src(r.value) for r in own_nodes(d) if isinstance(r, ast.Return)]
-    col.check("[(t1, p1), (t2, p2)]" in rets and "[]" in rets, R_, d.qualname, d.loc(),
+    col.shape("[(t1, p1), (t2, p2)]" in rets and "[]" in rets, R_, d.qualname, d.loc(),
               "returns (parameter, point) pairs, smaller root first; none when the line misses", str(rets),
               f"returns {rets}", stmt="ret")
     neg = [s for s in d.node.body if isinstance(s, ast.If) and norm_src(s.test) == "discriminant < 0"]
-    col.check(len(neg) == 1 and norm_src(neg[0].body[0]) == "return []", R_, d.qualname, d.loc(),
+    col.shape(len(neg) == 1 and norm_src(neg[0].body[0]) == "return []", R_, d.qualname, d.loc(),
               "no intersection iff the discriminant is negative", "", "the miss test is not `discriminant < 0`", stmt="miss")
     # projection
     p = repo.get_def(f"{GEO}.project_point_on_line")
